@@ -174,6 +174,22 @@ pub fn run_c06(o: &Opts) -> i32 {
         let hv = HV { log: 5, bh1: bh.clone(), bh2: bh };
         check_c06(l, &hv, rng);
     }));
+    // the two block hashes are independent strings: k trailing symbols s in block hash 1 and m leading
+    // symbols s in block hash 2 (k, m <= 3) never form a run together, for EVERY symbol s
+    streams.push(Stream::new("boundary-between-block-hashes", 64 * 16, |i, rng: &mut Rng, l: &mut Local| {
+        let s = (i / 16) as u8;
+        let (k, m) = (((i % 16) / 4) as usize, (i % 4) as usize);
+        let mut bh1: Vec<u8> = vec![(s + 1) % 64, (s + 2) % 64, (s + 3) % 64];
+        bh1.extend(std::iter::repeat(s).take(k));
+        let mut bh2: Vec<u8> = std::iter::repeat(s).take(m).collect();
+        bh2.extend_from_slice(&[(s + 5) % 64, (s + 6) % 64]);
+        let hv = HV { log: (i % 31) as u8, bh1, bh2 };
+        check_c06(l, &hv, rng);
+        // and with the run directly at the edges of otherwise empty block hashes
+        let hv2 = HV { log: 0, bh1: std::iter::repeat(s).take(k).collect(), bh2: std::iter::repeat(s).take(m).collect() };
+        check_c06(l, &hv2, rng);
+        l.nt(0xB0_0000 + i);
+    }));
     streams.push(Stream::new("random-multi-run", o.n(60_000, 5_000_000), |_i, rng: &mut Rng, l: &mut Local| {
         let hv = hashes::gen_hv(rng, 64, false);
         check_c06(l, &hv, rng);
@@ -228,7 +244,7 @@ pub fn run_c06(o: &Opts) -> i32 {
         o,
         rr,
         Report {
-            rule: "raw hashes: EVERY single-run layout (position x run length, 2080 layouts x symbols {0,1,63}, run ending at or before the capacity) in both block hashes and both capacities, every two-adjacent-run layout up to total length 20, random multi-run layouts (W3), and texts whose raw block hashes are longer than the capacity (up to ~200) while their run-collapse fits, parsed directly into the normalizing types. For each raw hash all routes - normalize(), normalize_in_place() (also twice and on a reused object), clone_normalized(), From<Raw>, from_raw_form(), parsing the text into the normalizing type, the normalized part of a dual built from the object, parsed from text and re-initialised in a reused dual object, normalizing twice - must equal the run-collapse oracle O4 by symbols, by full_eq against a freshly built object and by is_valid(); is_normalized() of raw, normalized and dual objects must equal (O4 leaves the string unchanged). evaluations = compared route results. Non-trivial = raw hash with a run longer than three; distinct by value.".into(),
+            rule: "raw hashes: EVERY single-run layout (position x run length, 2080 layouts x symbols {0,1,63}, run ending at or before the capacity) in both block hashes and both capacities, every two-adjacent-run layout up to total length 20, every (symbol, k trailing in block hash 1, m leading in block hash 2) combination with k, m <= 3, random multi-run layouts (W3), and texts whose raw block hashes are longer than the capacity (up to ~200) while their run-collapse fits, parsed directly into the normalizing types. For each raw hash all routes - normalize(), normalize_in_place() (also twice and on a reused object), clone_normalized(), From<Raw>, from_raw_form(), parsing the text into the normalizing type, the normalized part of a dual built from the object, parsed from text and re-initialised in a reused dual object, normalizing twice - must equal the run-collapse oracle O4 by symbols, by full_eq against a freshly built object and by is_valid(); is_normalized() of raw, normalized and dual objects must equal (O4 leaves the string unchanged). evaluations = compared route results. Non-trivial = raw hash with a run longer than three; distinct by value.".into(),
             assumptions: vec![],
             exhaustive: false,
             min_nontrivial: 5000 * o.scale_pct / 100,
